@@ -57,6 +57,8 @@ OkPar(e) ==
 
 Ok(e) == CASE e.e = "call" -> OkCall(e) [] e.e = "par" -> OkPar(e) [] OTHER -> FALSE
 Init == l = 1
-Next == l <= Len(Tr) /\ Ok(Tr[l]) /\ l' = l + 1
+(* `= TRUE` makes TLC evaluate Ok as a plain Boolean expression; as an action conjunct every witness of the \E in
+   CellOk would become a separate (identical) successor state: 8^8 of them when all lanes of a stride-0 result agree *)
+Next == l <= Len(Tr) /\ (Ok(Tr[l]) = TRUE) /\ l' = l + 1
 Accepted == TLCGet("stats").diameter - 1 = Len(Tr)
 ====
